@@ -677,6 +677,30 @@ def run_C10(chk):
                            sig='libc:localtime %s' % p[0])
             else:
                 good += 1; chk.count('libc-local:ok')
+    # the same with fixed non-zero offsets (POSIX TZ strings without a rule: no zone data, no DST): time_t -1 is a real instant there too;
+    # and civil years around the limits of int tm_year, which must saturate
+    for tzs, off in (('EST5', -18000), ('IST-5:30', 19800), ('XXX-14', 50400), ('YYY12', -43200)):
+        l3 = ['libczone N local']
+        m3 = []
+        for t in [-1, 0, 1, -2, 3599, -3600, off, -off, -1 - off, 86399, 2**31 - 1, -2**31, 1709164800]:
+            l3 += ['bt N %d' % t, 'mt N %s' % C.fmt(C.civil_of_sec(t + off)), 'cv N %s' % C.fmt(C.civil_of_sec(t + off))]; m3 += [('bt', t), ('mt', t), ('cv', t)]
+        for y, lim in ((-2147481749, I64MIN), (-2147483648 - 1900, I64MIN), (-2147483648 - 1899, I64MIN), (-2147481748 - 5, I64MIN), (-3000000000, I64MIN), (2147485548 + 5, I64MAX), (3000000000, I64MAX)):
+            l3 += ['cv N %s' % C.fmt((y, 12, 31, 23, 59, 59)), 'cv N %s' % C.fmt((y, 1, 1, 0, 0, 0))]; m3 += [('sat', lim), ('sat', lim)]
+        lo3 = run_lines(exe, l3, timeout=300, env={'TZ': tzs})
+        if not lo3[0].startswith('ok'):
+            chk.report('load_time_zone("libc:localtime") with TZ=%s gives `%s`' % (tzs, lo3[0]), {'op': l3[0], 'implementation': lo3[0]}, sig='libc load'); continue
+        for l, (kind, t), o in zip(l3[1:], m3, lo3[1:]):
+            if kind == 'bt': want = None if not o else '%s %d 0' % (C.fmt(C.civil_of_sec(t + off)), off)
+            elif kind == 'mt': want = 'UNIQUE %d %d %d' % (t, t, t)
+            elif kind == 'cv': want = str(t)
+            else: want = str(t)
+            ok = o.startswith(want + ' ') if kind == 'bt' else o == want
+            chk.cov['evaluations'] += 1
+            if not ok:
+                chk.report('libc:localtime (TZ=%s): `%s` = `%s`; expected `%s`' % (tzs, ' '.join(l.split()[:1] + l.split()[2:]), o, want), {'op': l, 'env': 'TZ=' + tzs, 'implementation': o, 'specification': want},
+                           sig='libc:localtime %s' % kind)
+            else:
+                good += 1; chk.count('libc-local:ok')
     chk.cov['distinct_nontrivial'] = good
     chk.cov['zones'] = len(zones) + len(fixed)
     chk.cov['rule'] = ('every zone of the corpus plus fixed offsets of +-24h, +-(24h-1s), 0, +1h, -1s plus well-formed zones outside the tameness hypothesis: lookup / next_transition / prev_transition at the outermost '
